@@ -22,6 +22,7 @@
  * property's postconditions + Inv again.  History length is therefore unbounded.
  */
 #include "verif.h"
+#define VERIF_RG_POST_STEP   /* environment also acts after each of my atomic operations */
 #include "verif_rg.h"
 #include "parsec/parsec_config.h"
 
